@@ -104,6 +104,11 @@ class SymCtx(_CtxBase):
     def define(self, cond):
         self.eng.define(cond.e if isinstance(cond, SymBool) else cond)
 
+    def hint(self, cond):
+        """preference for the concrete witness / counterexample values of this path (not a constraint)"""
+        if isinstance(cond, SymBool):
+            self.eng.hint(cond)
+
     def claim(self, cond, label, detail=None):
         self.reached[label] = self.reached.get(label, 0) + 1
         st, model = self.eng.check_claim(cond)
@@ -177,6 +182,9 @@ class ConcCtx(_CtxBase):
             raise AssumptionFailed()
 
     def define(self, cond):
+        pass
+
+    def hint(self, cond):
         pass
 
     def claim(self, cond, label, detail=None):
